@@ -246,6 +246,11 @@ def _impl_tsfit(c):
         except Exception as e:
             out['second_call_differs'] = {'err': core.exc_kind(e)}
     try:
+        for dt in ('f4', 'i4'):
+            try:
+                traceset2xy(t, xpos.astype(dt))
+            except Exception:
+                pass
         out['xy'] = {'ok': traceset2xy(t, xpos)[1].tolist()}
     except Exception as e:
         out['xy'] = {'err': core.exc_kind(e)}
@@ -280,6 +285,13 @@ def _impl_xy(c, t=None):
                 traceset2xy(t, xpos, not c['ignore_jump'])
             except Exception:
                 pass
+        if xpos is not None:
+            # ... nor on the dtype of the positions it was asked at before (single precision, integer pixel numbers)
+            for dt in ('f4', 'i4'):
+                try:
+                    traceset2xy(t, xpos.astype(dt), c['ignore_jump'])
+                except Exception:
+                    pass
         x, y = traceset2xy(t, xpos, c['ignore_jump'])
         return {'ok': {'x': x.tolist(), 'y': y.tolist()}}
     except Exception as e:
